@@ -427,6 +427,58 @@ fn run(ctx: &mut Ctx) {
             }
         }
     }
+    // family 4: the `format` command must echo a literal with its value and its decimal places, whatever the file
+    // declared before it: every well-formed literal of length <= 5 as a posting amount after each of 4 preludes
+    // (none; `commodity X` with format 1,000.00 X / 1 X / 1.0000 X), formatted by the real formatter and read back
+    {
+        let preludes = ["", "commodity X\n  format 1,000.00 X\n\n", "commodity X\n  format 1 X\n\n", "commodity X\n  alias x\n  format 1.0000 X\n\n"];
+        for (pi, pre) in preludes.iter().enumerate() {
+            for len in 1..=5usize {
+                let total = 6u64.pow(len as u32);
+                for k in 0..total {
+                    if !ctx.next_is_mine() {
+                        ctx.skip_cases(1);
+                        continue;
+                    }
+                    let lit = nth_string(len, k);
+                    let text = format!("{}2024/01/01 p\n  A  {} X\n  B\n", pre, lit);
+                    ctx.case(
+                        || format!("format echo:\n{}", text),
+                        || {
+                            let exp = reference(&lit);
+                            let (digits, scale, neg) = match &exp {
+                                Exp::Accept { digits, scale, neg, .. } => (digits.clone(), *scale, *neg),
+                                _ => return Outcome::dont_care(format!("format-echo/prelude{}/not-a-well-formed-literal", pi)),
+                            };
+                            let mut out: Vec<u8> = vec![];
+                            let mut r = text.as_bytes();
+                            if let Err(e) = okane_core::format::FormatOptions::new().format(&mut r, &mut out) {
+                                return Outcome::violation("format-echo/rejected-wellformed", format!("{:?}: {}", lit, e));
+                            }
+                            let printed = String::from_utf8_lossy(&out).to_string();
+                            let parsed: Result<Vec<plain::LedgerEntry<'_>>, String> = parse_ledger::<plain::Ident>(&ParseOptions::default(), &printed).map(|r| r.map(|(_, e)| e).map_err(|e| e.to_string())).collect();
+                            let es = match parsed {
+                                Ok(es) => es,
+                                Err(e) => return Outcome::violation("format-echo/output-unreadable", format!("{}\n{}", printed, e)),
+                            };
+                            let txn: Vec<plain::LedgerEntry<'_>> = es.into_iter().filter(|e| matches!(e, syntax::LedgerEntry::Txn(_))).collect();
+                            match extract("posting-amount", &txn) {
+                                None => Outcome::violation("format-echo/number-lost", printed),
+                                Some((n, p)) => {
+                                    let eff = if n { -p.value.mantissa() } else { p.value.mantissa() };
+                                    if eff == want_mantissa(&digits, neg) && p.value.scale() == scale {
+                                        Outcome::pass(format!("format-echo/prelude{}/value-and-scale-kept", pi))
+                                    } else {
+                                        Outcome::violation(format!("format-echo/value-or-decimal-places-changed/prelude{}", pi), format!("{:?} was echoed as {} (scale {}) in:\n{}", lit, p.value, p.value.scale(), printed))
+                                    }
+                                }
+                            }
+                        },
+                    );
+                }
+            }
+        }
+    }
     // family 3: embeddings
     let emb_len = ctx.tier.pick(4usize, 5usize);
     for (pos, tmpl) in POSITIONS {
